@@ -139,6 +139,13 @@ def generate(rng, tier, index):
                                              "wild_defaults": 0.2})
     sc["prop"] = ID
     sc["rot"] = rng.randrange(1000)
+    https_ = sorted(u for u in (
+        layout.store_of(sc["uni"]) if sc["kind"] == "config"
+        else sc["store"]) if u.startswith("http://"))
+    if https_ and rng.random() < 0.2:
+        # one http resource has moved: the server redirects to a location
+        # that carries a fragment identifier
+        sc["redirect"] = rng.choice(https_)
     if sc["kind"] == "schema" and rng.random() < 0.12:
         # the top schema document declares an external general entity and
         # refers to it (legal XML; whatever the reader makes of it, a stream
@@ -335,6 +342,8 @@ def base_store(plan):
     st.update(plan["pkgfiles"])
     if plan["kind"] == "config":
         st[WRAPPER % plan["top"]] = "%include " + plan["top"] + "\n"
+    if plan.get("redirect") and plan["redirect"] in st:
+        st[plan["redirect"] + ".moved"] = st[plan["redirect"]]
     return st
 
 
@@ -350,6 +359,11 @@ def failure_points(plan, recon):
         for k in kinds:
             pts.append({"faults": [{"seam": "open", "at": j, "kind": k}]})
         for d in (0, 4):
+            if url == plan.get("redirect"):
+                # the answer to this request is a redirect, which urllib
+                # reads and closes itself before ZConfig is handed anything:
+                # a failure while IT reads is not ZConfig's to clean up
+                continue
             rk = READ_KINDS[(rot + j + d) % len(READ_KINDS)]
             if rk == "read-truncated":
                 if url.startswith("http:"):
@@ -620,6 +634,9 @@ def execute(plan):
            "violations": [], "waste": 0, "log": []}
     store0 = base_store(plan)
     with SimWorld(store=store0, packages=plan["packages"]) as w:
+        if plan.get("redirect"):
+            w.redirects = {plan["redirect"]:
+                           plan["redirect"] + ".moved#part-2"}
         ctx = Ctx(plan, w)
         if not ctx.setup():
             out["waste"] += 1
